@@ -29,6 +29,23 @@ theorem C03_resume (cfg : Cfg) (script : List PEntry) (evs : List Ev) :
     C03.resumeOk (trace cfg script evs) = true :=
   accepts_trace _ _ cfg script evs (run_res cfg script evs).resOk
 
+/-- After a processor failure - the processor raising, or the Deferred it returned failing - nothing more is
+    handed to the processor (so nothing more can count as processed, or be committed) until the consumer is
+    started again, on every trace: whatever the failure kind, whatever replies were parked or arrive later,
+    whatever stop/shutdown/commit calls follow. -/
+theorem C03_failure_stops_progress (cfg : Cfg) (script : List PEntry) (evs : List Ev) :
+    C03.failureStopsOk (trace cfg script evs) = true :=
+  accepts_trace _ _ cfg script evs (run_halt cfg script evs).haltOk
+
+/-- Crash safety: cut the run at ANY point (every prefix of every event list is a run): every commit request
+    issued so far carried an offset that successfully processed blocks cover, and no block was delivered
+    after a processor failure - a process that dies there and restarts from the stored offset skips nothing
+    that was not processed. -/
+theorem C03_crash_safe (cfg : Cfg) (script : List PEntry) (evs : List Ev) (n : Nat) :
+    C03.commitLeProcessedOk (trace cfg script (evs.take n)) = true ∧
+      C03.failureStopsOk (trace cfg script (evs.take n)) = true :=
+  ⟨C03_commit_le_processed cfg script (evs.take n), C03_failure_stops_progress cfg script (evs.take n)⟩
+
 /-! Non-vacuity: `start(OFFSET_COMMITTED)`, the coordinator reports offset 41, the consumer fetches at 42. -/
 example :
     let cfg : Cfg := { group := true, autoN := 0, autoS := 0, bufInit := 100, bufMax := none, retryInit := 1, retryMax := 2,
@@ -44,9 +61,9 @@ C03_commit_le_processed
 C03_one_in_flight
 C03_committed_is_acked
 C03_resume
+C03_failure_stops_progress
+C03_crash_safe
 -/
 /- OPEN_STATEMENTS
-C03_failure_stops_progress
 C03_commit_reports
-C03_crash_safe
 -/
